@@ -221,6 +221,10 @@ func cmdTLS(args []string) int {
 			credKind{Name: "valid certificate named somebody-else whose DNS name is client-test01", Coq: `(TlsCert Tls13 (CT "somebody-else" 1 false true))`, CN: "somebody-else", Valid: true, Creds: tlsWith(must(mintSAN("somebody-else", []string{"client-test01", "signer-test02"}, realCA, realCAKey, false, clientUsage)), 0)},
 			credKind{Name: "valid certificate without a subject name whose DNS name is signer-test02 (a peer)", Coq: `(TlsCert Tls13 (CT "" 1 false true))`, CN: "", Valid: true, Creds: tlsWith(must(mintSAN("", []string{"signer-test02"}, realCA, realCAKey, false, clientUsage)), 0)},
 			credKind{Name: "valid certificate named SIGNER-TEST02 (a peer's name in capitals)", Coq: `(TlsCert Tls13 (CT "SIGNER-TEST02" 1 false true))`, CN: "SIGNER-TEST02", Valid: true, Creds: tlsWith(must(mint("SIGNER-TEST02", realCA, realCAKey, false, clientUsage)), 0)},
+			credKind{Name: "valid certificate named client-test01.example.com (a permitted name followed by a domain)", Coq: `(TlsCert Tls13 (CT "client-test01.example.com" 1 false true))`, CN: "client-test01.example.com", Valid: true, Creds: tlsWith(must(mint("client-test01.example.com", realCA, realCAKey, false, clientUsage)), 0)},
+			credKind{Name: "valid certificate named client-test02. (a permitted name followed by a dot)", Coq: `(TlsCert Tls13 (CT "client-test02." 1 false true))`, CN: "client-test02.", Valid: true, Creds: tlsWith(must(mintSAN("client-test02.", []string{"client-test02"}, realCA, realCAKey, false, clientUsage)), 0)},
+			credKind{Name: "valid certificate named signer-test02.evil (a peer's name followed by a domain)", Coq: `(TlsCert Tls13 (CT "signer-test02.evil" 1 false true))`, CN: "signer-test02.evil", Valid: true, Creds: tlsWith(must(mint("signer-test02.evil", realCA, realCAKey, false, clientUsage)), 0)},
+			credKind{Name: "valid certificate with neither a subject name nor a DNS name", Coq: `(TlsCert Tls13 (CT "" 1 false true))`, CN: "", Valid: true, Creds: tlsWith(must(mintSAN("", nil, realCA, realCAKey, false, clientUsage)), 0)},
 			credKind{Name: "fresh certificate of the configured authority named client-test02", Coq: `(TlsCert Tls13 (CT "client-test02" 1 false true))`, CN: "client-test02", Valid: true, Creds: tlsWith(must(mint("client-test02", realCA, realCAKey, false, clientUsage)), 0)},
 		)
 	}
@@ -252,7 +256,9 @@ func cmdTLS(args []string) int {
 		call := func(method string, f func(ctx context.Context) (string, string, error)) {
 			cctx, ccancel := context.WithTimeout(ctx, 10*time.Second)
 			defer ccancel()
+			noteRequest("%s over a real connection by a caller with [%s]", method, k.Name)
 			yielded, detail, err := f(cctx)
+			requestDone()
 			o := outcome{served: err == nil, yielded: yielded, detail: detail}
 			if err != nil {
 				o.detail = err.Error()
